@@ -52,6 +52,10 @@ pub struct ChildRec {
     /// Sequence number of the event at which the child exited (completion order).
     pub exit_seq: u64,
     pub sim_ms: u64,
+    /// The child had to wait because anthem was not reading its output pipe.
+    pub output_blocked: bool,
+    /// anthem killed the child.
+    pub killed: bool,
 }
 
 #[derive(Clone, Debug, Serialize)]
